@@ -1381,6 +1381,26 @@ func (it *Interp) binop(s *State, fr *Frame, x *ssa.BinOp, a, b AV) AV {
 				}
 			}
 		}
+		if it.Terms && isCmp && (av.Known != bv.Known) {
+			// no computed or input quantity reaches the largest finite float (stated assumption of the term rules)
+			k, u, op := av, bv, x.Op
+			if bv.Known {
+				k, u = bv, av
+				op = map[token.Token]token.Token{token.LSS: token.GTR, token.GTR: token.LSS, token.LEQ: token.GEQ, token.GEQ: token.LEQ, token.EQL: token.EQL, token.NEQ: token.NEQ}[op]
+			}
+			// now: k op u
+			if u.Finite && (k.V == math.MaxFloat64 || k.V == -math.MaxFloat64) {
+				big := k.V > 0
+				switch op {
+				case token.GTR, token.GEQ, token.NEQ: // k > u
+					return boolOf(big || op == token.NEQ)
+				case token.LSS, token.LEQ: // k < u
+					return boolOf(!big)
+				case token.EQL:
+					return boolOf(false)
+				}
+			}
+		}
 		if it.Terms && isCmp && s.rel != nil {
 			if ta, tb := it.termOf(av), it.termOf(bv); ta != nil && tb != nil {
 				if r, ok := relDecide(s, x.Op.String(), ta, tb); ok {
